@@ -644,6 +644,34 @@ func (ec *evalCtx) callSpec(x *spec.Call) Val {
 			}
 			return Val{T: smt.False}
 		}
+	case "addr":
+		// addr(x.f): the address of the struct-typed field f of x (an embedded object)
+		sel, ok := x.Args[0].(*spec.Sel)
+		if !ok {
+			ec.fail("addr: expected x.f")
+		}
+		base := ec.eval(sel.X)
+		if base.GoT == nil {
+			ec.fail("addr: %s has no Go type", sel.X)
+		}
+		t := base.GoT
+		if p, isP := t.Underlying().(*types.Pointer); isP {
+			t = p.Elem()
+		}
+		st, isS := t.Underlying().(*types.Struct)
+		if !isS {
+			ec.fail("addr: %s is not a struct", sel.X)
+		}
+		for i := 0; i < st.NumFields(); i++ {
+			if st.Field(i).Name() == sel.Name {
+				key, ft := fc.fieldKey(t, i)
+				if _, isStruct := ft.Underlying().(*types.Struct); !isStruct {
+					ec.fail("addr: %s is not a struct-typed field", sel)
+				}
+				return Val{T: fc.subRef(key, ec.scalar(base, x)), GoT: types.NewPointer(ft)}
+			}
+		}
+		ec.fail("addr: no field %s", sel.Name)
 	case "boxed":
 		// boxed(x): the pointer held by the interface value x when x was built, at this
 		// call site, from a pointer of a view type (type B A); otherwise x itself
